@@ -1810,6 +1810,8 @@ TARGETS2 = {
     "CBits": [
         ("varintBitstream.h", "varintBitstreamSet", "bitstreamSet"),
         ("varintBitstream.h", "varintBitstreamGet", "bitstreamGet"),
+        ("harness/vw_bits.c", "vw_bitsPrepareSigned", "bitsPrepareSigned"),
+        ("harness/vw_bits.c", "vw_bitsRestoreSigned", "bitsRestoreSigned"),
     ],
     "CRLE": [
         ("import", "CTagged", TAGGED_IMPORTS),
